@@ -355,7 +355,7 @@ impl<F: Flavor> Sys<F> {
             let growth_ok = F::GROWING && na > 0 && matches!(op, Op::TrySend | Op::PollSend(..) | Op::PollRecv(..) | Op::TryRecv | Op::PollStream(..));
             // GrowingHeapBuf: only push paths (a send, or a receive that refills the buffer from a parked sender) may allocate/reallocate
             if !growth_ok {
-                out.v("C18", "alloc-in-call", format!("{} allocations / {} frees inside library calls of step {:?}", na, nf, op));
+                out.p("C18", "alloc-in-call", format!("{} allocations / {} frees inside library calls of step {:?}", na, nf, op));
             }
         }
         let snap = F::snapshot(self.chan());
@@ -370,20 +370,20 @@ impl<F: Flavor> Sys<F> {
         for (i, s) in self.ss.iter().enumerate() {
             if let Some(s) = s {
                 if s.fut.get().is_terminated() != s.meta.done {
-                    out.v("C17", "is-terminated", format!("send slot {}: is_terminated()={} but completed/cancelled={}", i, s.fut.get().is_terminated(), s.meta.done));
+                    out.p("C17", "is-terminated", format!("send slot {}: is_terminated()={} but completed/cancelled={}", i, s.fut.get().is_terminated(), s.meta.done));
                 }
             }
         }
         for (i, s) in self.rs.iter().enumerate() {
             if let Some(s) = s {
                 if s.fut.get().is_terminated() != s.meta.done {
-                    out.v("C17", "is-terminated", format!("receive slot {}: is_terminated()={} but completed={}", i, s.fut.get().is_terminated(), s.meta.done));
+                    out.p("C17", "is-terminated", format!("receive slot {}: is_terminated()={} but completed={}", i, s.fut.get().is_terminated(), s.meta.done));
                 }
             }
         }
         if let Some(s) = &self.st {
             if s.st.get().is_terminated() != s.meta.done {
-                out.v("C17", "stream-is-terminated", format!("stream: is_terminated()={} but returned None={}", s.st.get().is_terminated(), s.meta.done));
+                out.p("C17", "stream-is-terminated", format!("stream: is_terminated()={} but returned None={}", s.st.get().is_terminated(), s.meta.done));
             }
         }
 
@@ -450,23 +450,23 @@ impl<F: Flavor> Sys<F> {
         if self.closed {
             for &(g, j) in &rp {
                 if !fresh(g, j, self.rmeta(g, j).unwrap()) {
-                    out.v("C11", "pending-not-woken", format!("the channel is closed but the pending receiver (group {}, slot {}) has not been woken through the waker of its latest poll", g, j));
+                    out.p("C11", "pending-not-woken", format!("the channel is closed but the pending receiver (group {}, slot {}) has not been woken through the waker of its latest poll", g, j));
                 }
             }
             for &j in &sp {
                 if !fresh(GS, j, &self.ss[j].as_ref().unwrap().meta) {
-                    out.v("C11", "pending-not-woken", format!("the channel is closed but the pending sender of slot {} has not been woken through the waker of its latest poll", j));
+                    out.p("C11", "pending-not-woken", format!("the channel is closed but the pending sender of slot {} has not been woken through the waker of its latest poll", j));
                 }
             }
         } else {
             if !self.inflight.is_empty() && !rp.is_empty() && !rp.iter().any(|&(g, j)| fresh(g, j, self.rmeta(g, j).unwrap())) {
-                out.v("C10", "receiver-lost-wakeup", format!("values {:?} are available, receivers {:?} are pending, none of them has been woken through the waker of its latest poll", self.inflight.iter().map(|e| e.tag).collect::<Vec<_>>(), rp));
+                out.p("C10", "receiver-lost-wakeup", format!("values {:?} are available, receivers {:?} are pending, none of them has been woken through the waker of its latest poll", self.inflight.iter().map(|e| e.tag).collect::<Vec<_>>(), rp));
             }
             for &j in &sp {
                 let s = self.ss[j].as_ref().unwrap();
                 let accepted = self.received.contains(&s.tag) || self.discarded.contains(&s.tag) || F::send_node(s.fut.get()).tag == 2;
                 if accepted && !fresh(GS, j, &s.meta) {
-                    out.v("C10", "sender-lost-wakeup", format!("the value of the pending sender of slot {} has been accepted but the sender has not been woken through the waker of its latest poll", j));
+                    out.p("C10", "sender-lost-wakeup", format!("the value of the pending sender of slot {} has been accepted but the sender has not been woken through the waker of its latest poll", j));
                 }
             }
         }
@@ -720,7 +720,12 @@ impl<F: Flavor> System for Sys<F> {
                     }
                     Ok(None) => {
                         out.o("None");
-                        if let Some(e) = self.inflight.iter_mut().find(|e| e.tag == tag) {
+                        // ground truth through the hook: None means "the value has left the future"
+                        let still_inside = F::send_node(self.ss[i].as_ref().unwrap().fut.get()).extra != NO_VALUE;
+                        if still_inside {
+                            out.v("C08", "cancel-kept-value", format!("cancel() of send({}) returned None although the value is still stored inside the send future (it will be dropped with the future instead of being handed back)", tag));
+                            self.inflight.retain(|e| e.tag != tag);
+                        } else if let Some(e) = self.inflight.iter_mut().find(|e| e.tag == tag) {
                             e.accepted = true;
                             e.origin = Origin::Gone;
                         } else if !self.received.contains(&tag) && !self.discarded.contains(&tag) {
@@ -1191,5 +1196,5 @@ impl<F: Flavor> System for Sys<F> {
 
 #[allow(non_snake_case)]
 fn Violation_prefix(v: crate::core::Violation) -> crate::core::Violation {
-    crate::core::Violation { prop: v.prop, clause: v.clause, msg: format!("[during drain closure] {}", v.msg) }
+    crate::core::Violation { prop: v.prop, clause: v.clause, msg: format!("[during drain closure] {}", v.msg), pure: v.pure }
 }
